@@ -100,6 +100,9 @@ pub struct Emitted {
     /// rows of the secondary header lines of a block statement: (stmt, k) where k = 1..
     /// for ELSEIF conditions, CASE lines and the LOOP line of a bottom-tested DO
     pub extra_rows: HashMap<(StmtId, usize), u32>,
+    /// text of the header lines of block statements: (stmt, k) -> (row, first, last column);
+    /// k = 0 for the first line, k as in `extra_rows` for the others
+    pub header_spans: HashMap<(StmtId, usize), (u32, u32, u32)>,
     /// for every line that holds code: (row, first column, last column) of the code
     pub code_lines: Vec<(u32, u32, u32)>,
     pub rows: u32,
@@ -118,6 +121,7 @@ struct Emitter<'a> {
     /// emitting the main module (CONST filler lines are placed there only)
     in_main: bool,
     const_no: u32,
+    last_line_c0: u32,
     out: Emitted,
 }
 
@@ -296,6 +300,10 @@ impl<'a> Emitter<'a> {
             Expr::Err => self.kw("ERR"),
             Expr::Eof(h) => format!("{}({})", self.kw("EOF"), h),
             Expr::Paren(x) => format!("({})", self.expr(x, false)),
+            Expr::Quot(x) => {
+                let inner = self.expr(x, false);
+                format!("({} / {})", inner, self.ident("DZ%"))
+            }
             Expr::LenOf(t) => format!("{}(\"{}\")", self.kw("LEN"), t),
         }
     }
@@ -605,14 +613,26 @@ impl<'a> Emitter<'a> {
     fn header(&mut self, id: StmtId, depth: usize, text: &str) {
         self.fresh(depth);
         self.out.starts.insert(id, (self.row(), self.col()));
+        let c0 = self.col();
         self.cur.push_str(text);
+        let c1 = self.col().saturating_sub(1).max(c0);
+        self.out.header_spans.insert((id, 0), (self.row(), c0, c1));
         self.closed = true;
     }
 
     fn line(&mut self, depth: usize, text: &str) {
         self.fresh(depth);
+        self.last_line_c0 = self.col();
         self.cur.push_str(text);
         self.closed = true;
+    }
+
+    /// records the line written last by `line` as header line k of block `id`
+    fn extra_header(&mut self, id: StmtId, k: usize) {
+        let row = self.row();
+        self.out.extra_rows.insert((id, k), row);
+        let c1 = self.col().saturating_sub(1).max(self.last_line_c0);
+        self.out.header_spans.insert((id, k), (row, self.last_line_c0, c1));
     }
 
     fn list(&mut self, list: &[Stmt], depth: usize, in_function: Option<bool>) {
@@ -644,7 +664,7 @@ impl<'a> Emitter<'a> {
                             self.kw("THEN")
                         );
                         self.line(depth, &t);
-                        self.out.extra_rows.insert((s.id, ei + 1), self.row());
+                        self.extra_header(s.id, ei + 1);
                         self.list(b, depth + 1, in_function);
                     }
                     if let Some(b) = else_b {
@@ -753,7 +773,7 @@ impl<'a> Emitter<'a> {
                     } else {
                         let t = format!("{} {}", self.kw("LOOP"), c);
                         self.line(depth, &t);
-                        self.out.extra_rows.insert((s.id, 1), self.row());
+                        self.extra_header(s.id, 1);
                     }
                 }
                 StmtKind::Select {
@@ -781,7 +801,7 @@ impl<'a> Emitter<'a> {
                         }
                         let t = format!("{} {}", self.kw("CASE"), parts.join(", "));
                         self.line(depth, &t);
-                        self.out.extra_rows.insert((s.id, ci + 1), self.row());
+                        self.extra_header(s.id, ci + 1);
                         self.list(b, depth + 1, in_function);
                     }
                     if let Some(b) = else_b {
@@ -843,6 +863,7 @@ pub fn emit(sc: &Scenario, layout: &Layout) -> Emitted {
         cur_in_function: None,
         in_main: true,
         const_no: 0,
+        last_line_c0: 1,
         out: Emitted::default(),
     };
     if uses_subscript(&sc.main) {
